@@ -198,6 +198,77 @@ example : arrivalsOf (dWorld.step (.poll 2)).2.2 = [(0, .failed 2 true 9)] := by
 example : ((dWorld.step (.poll 2)).1.get 0).supQ = [.failed 2 true 9] := by decide
 example : (dWorld.step (.poll 2)).1.get 1 = dWorld.get 1 := by decide
 
+/-! ### Round 4: the `monitors` feature
+
+`Actor.mons` (ops `monAdd` / `monDel` = `m.monitor(me)` / `m.unmonitor(me)`, `monDrop` = a failed send to a dead
+monitor) and `notifyOuts`: every `notify_supervisor` first hands a state-less copy to each monitor (trace
+event `monFan reg tg e`, one routing effect `monSend m e` per monitor), then the event to the supervisor.
+`reported_once` covers it through the automaton clauses `c04.monitor-set` (targets = the monitors
+registered at that instant: nobody missed, nobody else, nobody twice), `c04.monitor-state`,
+`c04.after-terminal` (at most one terminal fan-out), `c04.started-not-after-post_start`,
+`c04.monitor-event-differs` (the supervisor's event is the same event). The ops only occur in the
+`monitors` build of the harness (`hcoremon/life_mon`), which is a run of this check. -/
+
+/-- **Exactly one copy per monitor registered at that instant, same constructor / text / reason as the
+supervisor's event, no state.** What one `notify_supervisor(e)` puts out for an actor with monitor set
+`a.mons`: the routing effects are exactly one `monSend m e.strip` per `m ∈ a.mons` (in that order), the
+trace event says `targets = registered = a.mons`, and the only other output is the supervisor's `emit p e`
+(if supervised) — whose state-less form is the monitors' copy. -/
+theorem monitors_each_exactly_once (a : Actor) (e : SupEv) :
+    (notifyOuts a e).filterMap (fun o => match o with | .eff (.monSend m x) => some (m, x) | _ => none)
+      = a.mons.map (fun m => (m, e.strip)) ∧
+    evs (notifyOuts a e) =
+      (if a.mons = [] then [] else [.monFan a.mons a.mons e.strip]) ++
+      (match a.sup with | some p => [.emit p e] | none => []) := by
+  unfold notifyOuts
+  constructor
+  · cases hm : a.mons with
+    | nil => cases a.sup <;> simp
+    | cons m ms =>
+      cases a.sup <;> simp [List.filterMap_append, List.filterMap_map, Function.comp_def]
+  · cases hm : a.mons with
+    | nil => cases a.sup <;> simp
+    | cons m ms => cases a.sup <;> simp
+
+/-- The monitor set is what the `monitor` / `unmonitor` calls (and drops after failed sends) made it:
+ascending, and a monitor is in it iff it was added and not removed since. -/
+theorem monitor_set_ops (a : Actor) (m x : Nat) :
+    (x ∈ (a.envOp (.monDel m)).1.mons ↔ x ∈ a.mons ∧ x ≠ m) ∧
+    (x ∈ (a.envOp (.monDrop m)).1.mons ↔ x ∈ a.mons ∧ x ≠ m) ∧
+    (x ∈ (a.envOp (.monAdd m)).1.mons ↔ x = m ∨ x ∈ a.mons) := by
+  have hins : ∀ l : List Nat, x ∈ insertAsc m l ↔ x = m ∨ x ∈ l := by
+    intro l
+    induction l with
+    | nil => simp [insertAsc]
+    | cons y l ih =>
+      simp only [insertAsc]
+      split
+      · simp
+      · split
+        · rename_i h; subst h; simp
+        · simp [ih]; constructor
+          · rintro (h | h | h) <;> simp [h]
+          · rintro (h | h | h) <;> simp [h]
+  refine ⟨by simp [Actor.envOp], by simp [Actor.envOp], by simpa [Actor.envOp] using hins a.mons⟩
+
+/-- Non-vacuity: an actor supervised by 0 and monitored by 2 and 3 (3 un-monitors again) panics. -/
+example : traceNoSnap 1 [.spawn (some 0) none true false true, .monAdd 3, .monAdd 2, .resume ⟨[], .ok⟩,
+      .pollSpawn true, .monDel 3, .poll, .resume ⟨[], .panic 4⟩, .poll] =
+    [.enter .preStart .none, .tick .preStart, .exit .preStart .ok, .spawnRet .ok, .supIs (some 0),
+     .enter .postStart .none, .tick .postStart, .exit .postStart (.panic 4),
+     .monFan [2] [2] (.failed 1 true 4), .emit 0 (.failed 1 true 4), .join .ok, .supIs none] := by decide
+
+example : Life.C04.ok 1 [.supIs (some 0), .exit .handle (.err 3), .monFan [2, 3] [2, 3] (.failed 1 false 3),
+    .emit 0 (.failed 1 false 3)] = true := by decide
+-- a monitor missed, a monitor told twice, an outsider told, a different event for the supervisor, state leaked
+example : Life.C04.ok 1 [.supIs (some 0), .exit .handle (.err 3), .monFan [2, 3] [2] (.failed 1 false 3)] = false := by decide
+example : Life.C04.ok 1 [.supIs (some 0), .exit .handle (.err 3), .monFan [2] [2, 2] (.failed 1 false 3)] = false := by decide
+example : Life.C04.ok 1 [.supIs (some 0), .exit .handle (.err 3), .monFan [] [5] (.failed 1 false 3)] = false := by decide
+example : Life.C04.ok 1 [.supIs (some 0), .exit .handle (.err 3), .monFan [2] [2] (.failed 1 false 3),
+    .emit 0 (.failed 1 true 3)] = false := by decide
+example : Life.C04.ok 1 [.stopRet false .none true, .enter .postStop .none, .exit .postStop .ok,
+    .monFan [2] [2] (.terminated 1 true .none)] = false := by decide
+
 /-! ### E-SRC obligations -/
 
 theorem src_cleanup_order : Extracted.cleanupOrder = Life.cleanupSteps := by decide
@@ -277,6 +348,8 @@ end C04
 #print axioms C04.emitted_is_delivered
 #print axioms C04.delivered_is_enqueued
 #print axioms C04.unrelated_untouched
+#print axioms C04.monitors_each_exactly_once
+#print axioms C04.monitor_set_ops
 #print axioms C04.src_cleanup_order
 #print axioms C04.src_terminate_condition
 #print axioms C04.src_status
